@@ -14,3 +14,12 @@ Definition sgio_args_ok : bool :=
   | _ => false
   end.
 
+
+(* neither execute() rebinds or resizes the CDB or a data buffer of the command it was handed (stores REGENERATED):
+   a command object that is issued again is handed over with the buffers its constructor sized *)
+Definition buffers_kept : bool :=
+  forallb (fun e => match e with (_, attr, kind) =>
+             negb (String.eqb attr "?") &&
+             negb ((String.eqb attr "cdb" || String.eqb attr "dataout" || String.eqb attr "datain") &&
+                   negb (String.eqb kind "content"))
+           end) exec_cmd_stores.
